@@ -412,12 +412,15 @@ class _NoTwin(Exception):
     pass
 
 
-def ssa_twin(spec, rename_self=False):
+def ssa_twin(spec, rename_self=False, drop_par_dup=False, keep_overwrites=False):
     """Static-single-assignment twin: every *pure overwrite* (a discipline producing, without reading it, a
     name that is already live where it runs) produces a fresh name instead, and the later readers follow.
 
     The function computed is unchanged up to the names of the outputs; the twin is judged on its own terms.
-    Leaves that read and write the same name keep doing so unless ``rename_self``.  Returns ``None`` when the
+    Leaves that read and write the same name keep doing so unless ``rename_self``.  With ``drop_par_dup``, when
+    several children of a parallel chain produce the same (non-summed) name, the losing (earlier) productions get
+    dead fresh names, so that only the child with priority produces the name; ``keep_overwrites`` then leaves
+    every other re-used name as it is.  Returns ``None`` when the
     renaming would change the meaning (same name produced by two children of a parallel/additive chain under
     different versions) or when the self-check (same inputs) fails.
     """
@@ -454,7 +457,7 @@ def ssa_twin(spec, rename_self=False):
                     rout[o] = forced[o]
                 elif o in ins and not rename_self:
                     rout[o] = tgt
-                elif tgt in live or o in ins:
+                elif (tgt in live or o in ins) and not keep_overwrites:
                     rout[o] = fresh(o)
                 else:
                     rout[o] = tgt
@@ -482,16 +485,27 @@ def ssa_twin(spec, rename_self=False):
         # parallel / additive chain: one version per re-produced name, shared by the children producing it
         forced = dict(forced)
         for o in node_outs:
-            if o not in forced and (cur.get(o, o) in live or o in node_ins):
+            if o not in forced and (cur.get(o, o) in live or o in node_ins) and not keep_overwrites:
                 forced[o] = fresh(o)
         merged = {}
         new["children"] = []
         entry, after = set(live), set(live)
+        summed = set(node.get("sum", ()))
+        last_producer = {o: max(k for k in range(len(children)) if o in ios[k][1]) for o in node_outs}
         for k, ch in enumerate(children):
             live_ch = set(entry)  # siblings do not see each other
-            c2, outm = rec(ch, dict(cur), live_ch, {o: v for o, v in forced.items() if o in ios[k][1]})
+            fk = {o: v for o, v in forced.items() if o in ios[k][1]}
+            losing = set()
+            if drop_par_dup:
+                for o in ios[k][1]:
+                    if o not in summed and last_producer[o] != k:
+                        fk[o] = fresh(o)  # dead name: the later child has priority
+                        losing.add(o)
+            c2, outm = rec(ch, dict(cur), live_ch, fk)
             after |= live_ch
             for o, v in outm.items():
+                if o in losing:
+                    continue
                 if merged.setdefault(o, v) != v:
                     raise _NoTwin(o)
             new["children"].append(c2)
